@@ -128,7 +128,13 @@ fn mint_once(
             _ => stdcode::serialize(&(claimed, Vec::<u8>::new())).unwrap().into(),
         }
     } else {
-        stdcode::serialize(&(claimed, pbytes)).unwrap().into()
+        // one mint in four carries its data in a valid but non-minimal serialisation
+        let sel = if c.cparam % 4 == 3 { (c.cparam / 4) as u8 } else { 0 };
+        let d = crate::plan::mint_data(claimed, &pbytes, sel);
+        if d != stdcode::serialize(&(claimed, pbytes.clone())).unwrap() {
+            st.class("mint-data-in-non-minimal-encoding");
+        }
+        d.into()
     };
     let fee = 1u128 << 30;
     tx.fee = CoinValue(fee);
